@@ -2705,5 +2705,5 @@ BUILTINS = {
     'print': _b_print, 'isinstance': _b_isinstance, 'str': _b_str, 'tuple': _b_tuple,
     'enumerate': _b_enumerate, 'zip': _b_zip, 'range': _b_range, 'sum': _b_sum, 'sorted': _b_sorted,
     'float': _b_float, 'int': _b_int, 'max': _b_max, 'min': _b_min, 'round': _b_round, 'getattr': _b_getattr, 'hasattr': _b_hasattr,
-    'defaultdict': _b_defaultdict, 'type': _b_type,
+    'defaultdict': _b_defaultdict, 'type': _b_type, 'frozenset': _b_set,          # frozenset(x): an immutable set - same abstract value; as a class name in isinstance it is its own name
 }
